@@ -131,7 +131,7 @@ func genTransport(g *rand.Rand, tier string) any {
 	if p.Mode == 2 {
 		m := 1 + g.IntN(5)
 		for i := 0; i < m; i++ {
-			k := g.IntN(4)
+			k := g.IntN(8)
 			if p.Kind == 2 {
 				k = g.IntN(7)
 			}
@@ -364,9 +364,19 @@ func execWebsocketTransport(e *Env, p *TransportParams) {
 			valid, _ := proto.Marshal(genEnvelope(ri.Seed, false, false))
 			typ := websocket.MessageBinary
 			var data []byte
-			switch ri.Kind % 4 {
+			switch ri.Kind % 8 {
 			case 0:
 				typ, data = websocket.MessageText, []byte("hello, not an envelope")
+			case 4:
+				// the frame type and the payload are independent: a text message is not an envelope even when its bytes decode
+				typ, data = websocket.MessageText, valid
+			case 5:
+				typ, data = websocket.MessageText, []byte{}
+			case 6:
+				data = []byte{} // an empty binary message is the all-absent envelope
+			case 7:
+				ascii, _ := proto.Marshal(&Rpc{Id: uint64(1 + g.IntN(100)), Body: &goatorepo.Body{Data: []byte("plain ascii body")}})
+				typ, data = websocket.MessageText, ascii
 			case 1:
 				data = make([]byte, 1+g.IntN(64))
 				for j := range data {
@@ -395,10 +405,10 @@ func execWebsocketTransport(e *Env, p *TransportParams) {
 				return
 			}
 			e.Note("nontrivial")
-			e.Note(fmt.Sprintf("ws.raw.kind%d", ri.Kind%4))
-			e.Log(fmt.Sprintf("ws.raw.kind%d", ri.Kind%4), "", 0, "")
+			e.Note(fmt.Sprintf("ws.raw.kind%d", ri.Kind%8))
+			e.Log(fmt.Sprintf("ws.raw.kind%d", ri.Kind%8), "", 0, "")
 			if !done {
-				e.Violate(prop, "hang", "websocket.raw", "Read did not return for raw input kind %d", ri.Kind%4)
+				e.Violate(prop, "hang", "websocket.raw", "Read did not return for raw input kind %d", ri.Kind%8)
 				return
 			}
 			// independent reading: what is a well-formed envelope?
@@ -406,7 +416,7 @@ func execWebsocketTransport(e *Env, p *TransportParams) {
 			wellFormed := typ == websocket.MessageBinary && proto.Unmarshal(data, &ref) == nil
 			if !wellFormed {
 				if rerr == nil {
-					e.Violate(prop, "malformed-delivered", "websocket.raw", "input that is not a well-formed envelope (kind %d, %d bytes) was delivered as an envelope", ri.Kind%4, len(data))
+					e.Violate(prop, "malformed-delivered", "websocket.raw", "input that is not a well-formed envelope (kind %d, %d bytes) was delivered as an envelope", ri.Kind%8, len(data))
 				}
 			} else if rerr != nil {
 				e.Violate(prop, "wellformed-rejected", "websocket.raw", "a decodable binary message was rejected: %v", rerr)
